@@ -1,7 +1,7 @@
 From Coq Require Import List Arith NArith Bool Lia.
 From GIV.Lib Require Import Regex Str Backtrack BtBounds.
 From GIV.Gen Require Import AnnNames UnicodeRe BlockRegex.
-From GIV.Model Require Import C02 C10 C10B.
+From GIV.Model Require Import C02 C10 C10B C10BSpec.
 From GIV.Proofs Require Import C11B.
 Import ListNotations.
 
@@ -93,7 +93,6 @@ Proof.
     + destruct (k (ch :: t) pos cs); [discriminate|exact Hrec].
 Qed.
 
-Definition no_lf (x : str) : Prop := Forall (fun ch => ch <> 10%N) x.
 Lemma no_lf_cls x : no_lf x -> Forall (fun ch => cls_mem (CNot (CChar 10)) ch = true) x.
 Proof. apply Forall_impl. intros ch H. cbn [cls_mem]. apply negb_true_iff. apply N.eqb_neq. exact H. Qed.
 
@@ -142,18 +141,18 @@ Lemma re_tagver_total : total_on_lines re_tagver = true. Proof. vm_compute. refl
 Lemma re_tagstab_total : total_on_lines re_tagstab = true. Proof. vm_compute. reflexivity. Qed.
 
 
-Arguments bmatch : simpl never.
-Arguments parse_annotations_d : simpl never.
-Arguments parse_fields_d : simpl never.
-Arguments parse_annotation_d : simpl never.
-Arguments part_with_fields : simpl never.
-Arguments attributes_transform : simpl never.
-Arguments match_ident : simpl never.
-Arguments py_lower : simpl never.
-Arguments strip : simpl never.
-Arguments part_set : simpl never.
-Arguments part_get : simpl never.
-Arguments ann_set : simpl never.
+#[local] Arguments bmatch : simpl never.
+#[local] Arguments parse_annotations_d : simpl never.
+#[local] Arguments parse_fields_d : simpl never.
+#[local] Arguments parse_annotation_d : simpl never.
+#[local] Arguments part_with_fields : simpl never.
+#[local] Arguments attributes_transform : simpl never.
+#[local] Arguments match_ident : simpl never.
+#[local] Arguments py_lower : simpl never.
+#[local] Arguments strip : simpl never.
+#[local] Arguments part_set : simpl never.
+#[local] Arguments part_get : simpl never.
+#[local] Arguments ann_set : simpl never.
 
 Ltac brk := repeat match goal with
   | |- context [match ?x with _ => _ end] => destruct x
